@@ -51,6 +51,11 @@ Proof. reflexivity. Qed.
 (* suppressed_by_answer: other.ttl > self.ttl / 2 (integer division) *)
 Lemma suppress_pinned mine theirs : suppress_ttl_cond mine theirs = (mine / 2 <? theirs).
 Proof. reflexivity. Qed.
+Lemma suppress_flush_pinned f : suppress_flush_override f = f.
+Proof. reflexivity. Qed.
+(* add_or_update: a record with TTL <= 1 renewed with TTL > 1 counts as new *)
+Lemma revived_pinned o n : revived_cond o n = ((o <=? 1) && (1 <? n)).
+Proof. reflexivity. Qed.
 
 (* TTL 0 in a response is stored as 1 *)
 Lemma ttl_zero_pinned t : ttl_zero_guard t = (t =? 0) /\ ttl_zero_becomes = 1.
